@@ -117,6 +117,14 @@ def _spec(spec, vals, flags):
         if f is None:
             return None, set()
         return _spec(spec[2] if f == "L" else spec[3], vals, flags)
+    if k in ("min", "max"):
+        a, an = _spec(spec[1], vals, flags)
+        b, bn = _spec(spec[2], vals, flags)
+        if a is None or b is None:
+            return None, set()
+        ta, tb = sorted([_symname(a), _symname(b)])
+        # MIN is zero when either is zero; MAX only when both are: callers test `names & zero`
+        return Poly.sym("%s(%s, %s)" % ("MIN" if k == "min" else "MAX", ta, tb)), (an | bn if k == "min" else set())
     if k == "sum":
         tot, names = Poly.const(0), set()
         for x in spec[1:]:
@@ -140,6 +148,13 @@ def footprint(role, vals, flags, zero_dims):
             return (None, "zero length", None)
         inc = vals[role[2]]
         return (ONE + (n - ONE) * Poly.sym("abs(%s)" % _symname(inc)), "", None)
+    if k == "vec1":
+        n, names = _spec(role[1], vals, flags)
+        if n is None:
+            return ("?", "flag value unknown", None)
+        if names & zero_dims:
+            return (None, "zero length", None)
+        return (n, "", None)
     if k == "mat":
         r, rn = _spec(role[1], vals, flags)
         c, cn = _spec(role[2], vals, flags)
